@@ -31,8 +31,9 @@ def _tree_files(repo):
     return sorted(out)
 
 
-def tree_key(repo=REPO):
+def tree_key(repo=REPO, thorough=False):
     h = hashlib.sha256()
+    h.update(b'thorough' if thorough else b'quick')
     for p in _tree_files(repo):
         h.update(os.path.relpath(p, repo).encode()); h.update(b'\0')
         with open(p, 'rb') as fh: h.update(fh.read())
@@ -53,8 +54,10 @@ def src_tus(repo=REPO):
     return sorted(out)
 
 
-def witness_tus():
-    return sorted('witness/' + os.path.basename(p) for p in glob.glob(os.path.join(WITNESS_DIR, '*.cpp')))
+def witness_tus(thorough=False):
+    """w_*.cpp: core instantiation matrix (every tier); t_*.cpp: additional instantiations of the thorough tier"""
+    pats = ['w_*.cpp'] + (['t_*.cpp'] if thorough else [])
+    return sorted('witness/' + os.path.basename(p) for pat in pats for p in glob.glob(os.path.join(WITNESS_DIR, pat)))
 
 
 def fact_name(tu):
@@ -65,12 +68,12 @@ def _run(cmd, cwd, timeout=600):
     return subprocess.run(cmd, cwd=cwd, stdout=subprocess.PIPE, stderr=subprocess.STDOUT, text=True, timeout=timeout)
 
 
-def extract(repo=REPO, use_cache=True, log=None):
+def extract(repo=REPO, use_cache=True, log=None, thorough=False):
     """Returns (facts_dir, info).  info: dict with tus, wall_s, cache_hit, fixits."""
     t0 = time.time()
     if not os.path.exists(TOOL):
         raise AnalysisBroken(f'extractor not built: {TOOL} (run setup.sh)')
-    key = tree_key(repo)
+    key = tree_key(repo, thorough)
     dest = os.path.join(CACHE, key)
     marker = os.path.join(dest, 'DONE.json')
     if use_cache and os.environ.get('VERIF_NO_CACHE') != '1' and os.path.exists(marker):
@@ -94,7 +97,7 @@ def extract(repo=REPO, use_cache=True, log=None):
             fixits += n
             if n == 0: break
         # 2. extract
-        tus = src_tus(tree) + witness_tus()
+        tus = src_tus(tree) + witness_tus(thorough)
         out = os.path.join(scratch, 'facts'); os.makedirs(out)
 
         def one(tu):
